@@ -996,6 +996,8 @@ func runC14(c *Ctx) {
 		c14Execute(c, prog, sc, "random")
 	})
 
+	runC14S(c) // sub-step model (c14_s3_sub.go): single writes of the locked regions, lock-free readers
+
 	// 2b. the SvResync gate: a system packet that carries a Job number is only acted on while that Job
 	// is pending (receiveSingle, the consumer of hasJob). Numbers tried: 0 and 1 (never handed out), a
 	// pending one, the neighbours of a pending one, one that was pending and is not any more
